@@ -69,6 +69,8 @@ class PathView:
             return False
         if any(re.match(r'^txn.get_client#\d+: present', l) for l in self.labels):
             return False
+        if nsc and any(re.match(r'^add_version#\d+: accepted, urgency (none|low)', l) for l in self.labels):
+            return False  # a client created by this very request has no snapshot: urgency is high
         if any(l.startswith('txn.get_client#') and 'storage error' in l for l in self.labels):
             return True
         return True
@@ -101,6 +103,29 @@ class PathView:
                                                         self.status, self.headers, ('body=%r' % (self.body,)) if self.body is not None else '', [e[0] for e in self.effects])
 
 
+class CtorPath:
+    """a path of WebServer::new on which the stored allow-list differs from the configured one;
+    replayed as: configure that list, send a well-formed request with an unlisted id"""
+
+    def __init__(self, p):
+        self.p = p
+        self.labels = ['allow-list configured (empty)' if 'empty' in ' '.join(p['labels']) else 'allow-list configured'] + p['labels']
+        self.kind = 'value'
+
+    def realizable(self):
+        return True
+
+    def text(self):
+        return 'WebServer::new: %s => stored allow-list %s' % (' / '.join(self.p['labels']), self.p['stored'])
+
+    def request(self):
+        return {'handler': 'get_snapshot', 'labels': ['allow-list configured (empty)', "header 'X-Client-Id' present", 'header value is visible ASCII', 'client id parses', 'get_snapshot#1: no such client'], 'chunk_sizes': []}
+
+    def predicted(self):
+        # with the list dropped the request is served: the client is unknown -> 404 after touching storage
+        return {'stored_atoms': None, 'status': 404, 'headers': {}, 'ctype': None, 'touches_storage': True}
+
+
 def unstr(x):
     return x.s if isinstance(x, Str) else x
 
@@ -123,6 +148,7 @@ def run_all(mir_path, repo, max_chunks=3):
             res['funcs'][h] = len(f.blocks)
             res['steps'] += steps
     res['prog'] = prog
+    res['ctor_paths'] = hrun.run_ctor(prog)
     return res
 
 
@@ -257,6 +283,8 @@ def check_c15(res, rep, max_size_expected=100 * 1024 * 1024):
             storage_err = any('storage error' in l for l in pv.labels)
             if not se:
                 rep.check('c15: a request refused before any library call gets a 4xx', is4xx(pv.status), pv)
+            if pv.status in (400, 403, 413) or (isinstance(pv.status, str) and pv.status.startswith('4xx')):
+                rep.check('c15: a request refused as malformed (400/403/payload error) has read and changed nothing: no library or storage call precedes the refusal', not se, pv)
             if isinstance(pv.status, int) and pv.status >= 500:
                 rep.check('c15: a 5xx is only ever the report of a storage error, never of a malformed request', storage_err, pv)
             if se:
@@ -325,6 +353,13 @@ def check_c16(res, rep):
                 rep.wit('c16.w: unlisted id refused on ' + h, True)
             if not al:
                 rep.check('c16: without a list nobody is refused with 403', pv.status != 403, pv)
+    # the list handed to the web server at construction is the list the handlers test
+    for p in res.get('ctor_paths', []):
+        arg, stored = p['arg'], p['stored']
+        rep.check('c16: the allow-list given to WebServer::new is the one enforced (an empty list is still a list: it admits nobody)', arg == stored, None)
+        if arg != stored:
+            rep.viol_pv[-1] = (rep.viol_pv[-1][0], CtorPath(p))
+        rep.wit('c16.w: constructor executed with a configured list', arg == 'Some')
     # listed clients are served exactly as if no list existed
     for h in hrun.HANDLERS:
         def norm(pvs, strip):
@@ -398,7 +433,7 @@ def create_skeleton(res):
 # the repo's own handler unit tests as concrete paths (translator validation)
 UNIT_TESTS = [
     ('add_version', 'test_success', ['add_version#1: accepted, urgency high'], [], 200, {'X-Version-Id', 'X-Snapshot-Request'}),
-    ('add_version', 'test_auto_add_client', ['add_version#1: no such client', 'txn.new_client#1: ok', 'txn.commit#1: ok', 'add_version#2: accepted, urgency high'], [], 200, {'X-Version-Id', 'X-Snapshot-Request'}),
+    ('add_version', 'test_auto_add_client', ['txn.new_client#1: ok', 'txn.commit#1: ok', 'accepted, urgency high'], [], 200, {'X-Version-Id', 'X-Snapshot-Request'}),
     ('add_version', 'test_conflict', ['add_version#1: conflict'], [], 409, {'X-Parent-Version-Id'}),
     ('add_version', 'test_bad_content_type', ["request_content_type != '%s'" % HS_CT], [], 400, set()),
     ('add_version', 'test_empty_body', ['client id parses', 'body stream ends'], ['chunk 0 arrives'], 400, set()),
@@ -419,7 +454,10 @@ def validate(res):
     """push the repo's handler unit tests through the path sets as concrete paths"""
     okc, errs = 0, []
     for (h, name, need, forbid, status, hdrs) in UNIT_TESTS:
-        pvs = [pv for pv in res['paths'][(h, False)] if all(n in pv.labels for n in need) and not any(f in pv.labels for f in forbid)]
+        pvs = [pv for pv in res['paths'][(h, False)] if all(any(n in l for l in pv.labels) for n in need) and not any(f in pv.labels for f in forbid)
+               and pv.kind == 'value' and not (name != 'test_auto_add_client' and h == 'add_version' and any('new_client' in l for l in pv.labels))
+               and not any('storage error' in l or 'stream fails' in l for l in pv.labels)]
+        pvs = [pv for pv in pvs if pv.last_outcome(h) in (None,) + tuple(x.split(': ', 1)[1] for x in need if ': ' in x and x.startswith(h))] or pvs
         if not pvs:
             errs.append('%s::%s: no path for %s' % (h, name, need))
             continue
